@@ -682,6 +682,46 @@ def d21():
                             ]"""),
 ])
 
+
+@fix('D36', "fix: float variables hold floats\n\nA default-initialised float scalar (and float vector/matrix components) was the int 0 and\n`x++` on a float added the int 1, so a float variable could hold a Python int; repeated\nmultiplication then computed exact big integers instead of floats\n(`float x; x++; x++; x++; x = x * x` six times returned 3**64 exactly, not 3.43e30).")
+def d36():
+    patch('nsl/VM.py', [
+("""        match primitiveType.Kind:
+            case LinearIR.TypeKind.Vector:
+                return [0] * primitiveType.Size
+            case LinearIR.TypeKind.Matrix:
+                return [
+                    [0] * primitiveType.ColumnCount
+                ] * primitiveType.RowCount
+            case LinearIR.TypeKind.Scalar:
+                return 0
+""",
+"""        def Zero(scalarType):
+            return 0.0 if isinstance(scalarType, LinearIR.FloatType) else 0
+
+        match primitiveType.Kind:
+            case LinearIR.TypeKind.Vector:
+                return [Zero(primitiveType.ElementType)] * primitiveType.Size
+            case LinearIR.TypeKind.Matrix:
+                return [
+                    [Zero(primitiveType.ElementType)]
+                    * primitiveType.ColumnCount
+                ] * primitiveType.RowCount
+            case LinearIR.TypeKind.Scalar:
+                return Zero(primitiveType)
+"""),
+])
+    patch('nsl/passes/LowerToIR.py', [
+("""        constOne = ctx.Function.CreateConstant(ctx.AdaptType(expr.GetType()), 1)
+""",
+"""        constOneType = ctx.AdaptType(expr.GetType())
+        constOne = ctx.Function.CreateConstant(
+            constOneType,
+            1.0 if isinstance(constOneType, LinearIR.FloatType) else 1,
+        )
+"""),
+])
+
 if __name__ == '__main__':
     name = sys.argv[1]
     msg, f = FIXES[name]
